@@ -114,15 +114,21 @@ int htp_parse_authorization_digest(htp_connp_t *connp, htp_header_t *auth_header
             else if (data[pos] == '"') in_quotes = 0;
         } else if (data[pos] == '"') {
             in_quotes = 1;
-        } else if ((len - pos >= 9) && (memcmp(data + pos, "username=", 9) == 0)) {
-            found = 1;
-            break;
+        } else if ((len - pos >= 9) && (bstr_util_cmp_mem_nocase(data + pos, 8, "username", 8) == 0)) {
+            // Parameter names are case-insensitive and there may be
+            // white space around the equals character.
+            size_t p = pos + 8;
+            while ((p < len) && (isspace((int) data[p]))) p++;
+            if ((p < len) && (data[p] == '=')) {
+                pos = p + 1;
+                found = 1;
+                break;
+            }
         }
         pos++;
     }
 
     if (!found) return HTP_DECLINED;
-    pos += 9;
 
     // Ignore whitespace
     while ((pos < len) && (isspace((int) data[pos]))) pos++;   
